@@ -349,6 +349,171 @@ def eval_schedule(case, ctx):
         shutil.rmtree(d, ignore_errors=True)
 
 
+# ------------------------------------------------------------------------- index files next to a shared reference
+
+def _reference_text(n_contigs, seed):
+    import random
+    rnd = random.Random(seed)           # content only, not a choice of the search: derived from the drawn case
+    out, truth = [], {}
+    for i in range(n_contigs):
+        name = "ctg%d" % i
+        seq = "".join(rnd.choice("ACGT") for _ in range(70 * (3 + i) + 13))
+        truth[name] = seq
+        out.append(">" + name)
+        out.extend(seq[j:j + 70] for j in range(0, len(seq), 70))
+    return "\n".join(out) + "\n", truth
+
+
+@st.composite
+def index_schedules(draw, max_n=4):
+    n = draw(st.integers(2, max_n))
+    return {"n": n, "schedule": draw(st.lists(st.integers(0, max_n - 1), min_size=0, max_size=160)),
+            "flush_each": draw(st.booleans()), "compressed": draw(st.sampled_from([True, True, False])),
+            # what earlier runs (or the user) left next to the reference
+            "initial": draw(st.sampled_from(["none", "none", "fai_only", "both", "stale_both"])),
+            "n_contigs": draw(st.integers(1, 3)), "content": draw(st.integers(0, 5))}
+
+
+def eval_index_schedule(case, ctx):
+    """N logical processes open the same (bgzip-compressed or plain) reference through the real
+    open_indexed_fasta + the direct Fasta() call of the workers; every file operation on <reference>.fai / .gzi is a
+    context switch."""
+    isoquant, g, rm = mods()
+    import pyfaidx
+    import pysam
+    import src.dataset_processor as dp
+    d = ctx.scratch()
+    n = case["n"]
+    real_open = open
+    real_replace = os.replace
+    real_getpid = os.getpid
+    tid_of = {}
+    try:
+        text, truth = _reference_text(case["n_contigs"], case["content"])
+        plain = os.path.join(d, "genome.fa")
+        with real_open(plain, "w") as f:
+            f.write(text)
+        ref = plain
+        if case["compressed"]:
+            ref = plain + ".gz"
+            pysam.tabix_compress(plain, ref, force=True)
+            os.remove(plain)
+        fai = ref + ".fai"
+        if case["initial"] != "none":
+            pyfaidx.Fasta(ref)
+            if case["initial"] == "fai_only" and os.path.exists(ref + ".gzi"):
+                os.remove(ref + ".gzi")
+            if case["initial"] == "stale_both":
+                for x in (fai, ref + ".gzi"):
+                    if os.path.exists(x):
+                        os.utime(x, (1, 1))
+        sched = Sched(n, case["schedule"])
+        outcomes = [None] * n
+
+        def watched(p):
+            return ".fai" in os.path.basename(p) or ".gzi" in os.path.basename(p)
+
+        def proxy_open(path, mode="r", *a, **kw):
+            tid = tid_of.get(threading.get_ident())
+            p = str(path)
+            if tid is None or not watched(p):
+                return real_open(path, mode, *a, **kw)
+            sched.yield_(tid, "open:%s:%s" % (mode, os.path.basename(p)))
+            return FileProxy(real_open(path, mode, *a, **kw), sched, tid, p, mode, case["flush_each"])
+
+        def replace_hook(src, dst, *a, **kw):
+            tid = tid_of.get(threading.get_ident())
+            if tid is not None and watched(str(dst)):
+                sched.yield_(tid, "replace:" + os.path.basename(str(dst)))
+                r = real_replace(src, dst, *a, **kw)
+                sched.yield_(tid, "replaced:" + os.path.basename(str(dst)))
+                return r
+            return real_replace(src, dst, *a, **kw)
+
+        def body(i):
+            tid_of[threading.get_ident()] = i
+            try:
+                sched.wait_turn(i)
+                fa = dp.open_indexed_fasta(ref, fai)
+                got = {k: str(fa[k][:]) for k in fa.keys()}
+                sched.yield_(i, "main-opened")
+                # a worker process of the run opens the reference directly (collect_reads_in_parallel)
+                fa2 = pyfaidx.Fasta(ref, indexname=fai)
+                got2 = {k: str(fa2[k][:]) for k in fa2.keys()}
+                outcomes[i] = {"ok": True, "main": got == truth, "worker": got2 == truth,
+                               "contigs": [sorted(got), sorted(got2)]}
+            except Abort:
+                outcomes[i] = {"ok": False, "error": "Abort", "msg": ""}
+            except BaseException as e:
+                outcomes[i] = {"ok": False, "error": type(e).__name__, "msg": str(e)[:200]}
+            finally:
+                sched.finish(i)
+
+        os.replace = replace_hook
+        os.getpid = lambda: 100000 + tid_of.get(threading.get_ident(), 0) if threading.get_ident() in tid_of \
+            else real_getpid()
+        old_open = getattr(pyfaidx, "open", None)
+        pyfaidx.open = proxy_open
+        try:
+            threads = [threading.Thread(target=body, args=(i,), daemon=True) for i in range(n)]
+            for t in threads:
+                t.start()
+            sched.start_all()
+            for t in threads:
+                t.join(timeout=120)
+            if any(t.is_alive() for t in threads):
+                sched.dead = True
+                with sched.cv:
+                    sched.cv.notify_all()
+                ctx.harness_errors.append("index schedule harness: thread did not finish")
+        finally:
+            os.replace = real_replace
+            os.getpid = real_getpid
+            if old_open is None:
+                del pyfaidx.open
+            else:
+                pyfaidx.open = old_open
+        trace = sched.trace
+        writers = set(t for t, w in trace if w.startswith("open:w"))
+        # non-trivial: a process opened an index file while another one was between its truncating open and the close
+        busy, overlap = {}, False
+        for t, w in trace:
+            p_ = w.split(":")
+            if p_[0] == "open":
+                if any(f == p_[2] and o != t for (o, f) in busy):
+                    overlap = True
+                if p_[1].startswith("w"):
+                    busy[(t, p_[2])] = True
+            elif p_[0] == "close":
+                busy.pop((t, p_[1]), None)
+        ctx.cls("index:n=%d" % n, "index:" + case["initial"], "index:compressed" if case["compressed"] else "index:plain",
+                "index:overlap" if overlap else "index:no_overlap")
+        if len(writers) >= 1 and (overlap or len(writers) >= 2):
+            ctx.mark_nontrivial(case_hash(case))
+            ctx.sample({"n": n, "initial": case["initial"], "compressed": case["compressed"],
+                        "trace_head": [list(x) for x in trace[:20]]}, limit=2)
+        for i, o in enumerate(outcomes):
+            if o is None or o.get("error") == "Abort":
+                continue
+            if not o["ok"]:
+                ctx.violation("C20:reference-index:concurrent-run-fails:" + o["error"],
+                              {"process": i, "msg": o["msg"], "trace_tail": [list(x) for x in trace[-14:]]}, case)
+            elif not (o["main"] and o["worker"]):
+                ctx.violation("C20:reference-index:run-reads-a-wrong-or-empty-reference",
+                              {"process": i, "contigs_seen": o["contigs"], "expected": sorted(truth),
+                               "trace_tail": [list(x) for x in trace[-14:]]}, case)
+        # whatever is left next to the reference serves a later run
+        try:
+            fa = pyfaidx.Fasta(ref)
+            if {k: str(fa[k][:]) for k in fa.keys()} != truth:
+                ctx.violation("C20:reference-index:index-left-behind-is-wrong", {"initial": case["initial"]}, case)
+        except Exception as e:
+            ctx.violation("C20:reference-index:index-left-behind-is-unreadable:" + type(e).__name__,
+                          {"msg": str(e)[:200]}, case)
+    finally:
+        shutil.rmtree(d, ignore_errors=True)
+
+
 # ------------------------------------------------------------------------------------------------ real processes
 
 @st.composite
@@ -360,6 +525,7 @@ def smoke_cases(draw):
     sc["opts"] = ["--data_type", "nanopore", "--no_gzip", "--threads", "1"]
     sc["n_procs"] = src.int(2, 6)
     sc["same_gtf"] = src.bool(0.5)
+    sc["bgzip_reference"] = src.bool(0.5)
     return sc
 
 
@@ -370,10 +536,19 @@ def eval_smoke(case, ctx):
     d = ctx.scratch()
     try:
         paths = build.materialise(sc, os.path.join(d, "in"))
+        if sc.get("bgzip_reference"):
+            import pysam
+            pysam.tabix_compress(paths["fasta"], paths["fasta"] + ".gz", force=True)
+            os.remove(paths["fasta"])
+            paths["fasta"] += ".gz"
         solo = pipeline.run_case(sc, ctx, d=d, paths=paths, out_name="solo", home=os.path.join(d, "home_solo"))
         if solo.code != 0:
             ctx.note("solo_failed")
             return
+        # the concurrent runs find the reference without index files, as the solo run did
+        for suf in (".fai", ".gzi"):
+            if os.path.exists(paths["fasta"] + suf):
+                os.remove(paths["fasta"] + suf)
         home = os.path.join(d, "home_shared")
         os.makedirs(home, exist_ok=True)
         procs = []
@@ -412,4 +587,6 @@ def stages(tier):
     q = tier == "quick"
     return [Stage("schedules", "hyp", eval_schedule, n=1600 if q else 100000,
                   strategy=(lambda: schedules(4)) if q else (lambda: schedules(8))),
+            Stage("reference_index", "hyp", eval_index_schedule, n=800 if q else 40000,
+                  strategy=(lambda: index_schedules(4)) if q else (lambda: index_schedules(8))),
             Stage("smoke", "hyp", eval_smoke, n=8 if q else 64, strategy=smoke_cases, shards=4)]
